@@ -1195,6 +1195,30 @@ class Tensor:
             else:
                 parent_var = None
 
+        # record graph information
+        out_constant = constant
+        if out_constant is None:
+            if any(not var.constant for var in tensor_vars):
+                out_constant = None
+            else:
+                out_constant = True
+
+        try:
+            # The result itself can be rejected - e.g. an integer-valued result
+            # that was required to be non-constant. Create it before any of the
+            # inputs' graph/gradient information is touched.
+            tensor_out = cls(
+                op_out,
+                constant=out_constant,
+                copy=False,
+                _creator=f,
+                _base=base,
+            )
+        except Exception as e:
+            if _mem.MEM_GUARD:
+                _mem.release_writeability_lock_on_op(_uniques_bases_then_arrs)
+            raise e
+
         for v in input_vars:
             if isinstance(v, Tensor):
                 # tensor's graph has been cleared, but its base lingers
@@ -1213,25 +1237,10 @@ class Tensor:
             f.replay_kwargs = op_kwargs
             f.replay_force_constant = constant
 
-        # record graph information
-        if constant is None:
-            if any(not var.constant for var in tensor_vars):
-                constant = None
-            else:
-                constant = True
-
         # record that a variable participated in that op
         ref_f = ReferenceType(f)  # type: WeakRef[Operation]
         for var in tensor_vars:
             var._ops.add(ref_f)
-
-        tensor_out = cls(
-            op_out,
-            constant=constant,
-            copy=False,
-            _creator=f,
-            _base=base,
-        )
 
         if parent_var is not None:
             parent_var._view_children.append(tensor_out)
